@@ -60,9 +60,12 @@ def _run(cmd):
         raise BuildError("command failed: %s\n%s" % (" ".join(cmd), p.stdout[-4000:]))
 
 
+COV = ["--coverage", "-DVERIF_COV"] if os.environ.get("VERIF_COV") else []   # tools/coverage.py only: which library lines the workloads reach
+
+
 def cc_flags(cfg):
-    return COMMON + CFG[cfg] + ["-include", config_h(), "-I" + REPO, "-I" + os.path.join(REPO, "mtbl"),
-                                "-I" + HARNESS]
+    return COMMON + CFG[cfg] + COV + ["-include", config_h(), "-I" + REPO, "-I" + os.path.join(REPO, "mtbl"),
+                                      "-I" + HARNESS]
 
 
 def build_lib(cfg, outdir, extra=()):
